@@ -1279,9 +1279,12 @@ public:
 
         classifier_.build(samples.data(), sample_size, splitter_lcp_);
 
-        // create new jobs
-        pwork_ = parts_;
-        for (unsigned int p = 0; p < parts_; ++p)
+        // create new jobs. Once the last job is enqueued, all jobs may finish
+        // and the whole sort step may be deleted before this loop checks its
+        // condition again, hence do not read members in the loop condition.
+        const size_t parts = parts_;
+        pwork_ = parts;
+        for (unsigned int p = 0; p < parts; ++p)
         {
             ctx_.threads_.enqueue([this, p]() { count(p); });
         }
@@ -1339,9 +1342,12 @@ public:
         }
         assert(sum == strptr_.size());
 
-        // create new jobs
-        pwork_ = parts_;
-        for (unsigned int p = 0; p < parts_; ++p)
+        // create new jobs. Once the last job is enqueued, all jobs may finish
+        // and the whole sort step may be deleted before this loop checks its
+        // condition again, hence do not read members in the loop condition.
+        const size_t parts = parts_;
+        pwork_ = parts;
+        for (unsigned int p = 0; p < parts; ++p)
         {
             ctx_.threads_.enqueue([this, p]() { distribute(p); });
         }
